@@ -15,7 +15,7 @@ EXTENDS TLC
 
 \* AXIS_DESCR_k: a standard axis in position k of a CURVE / MAP / CUBOID whose preceding axes are not
 \* standard axes; its data type is the one of AXIS_PTS_X / _Y / _Z (position k) of the record layout
-Kinds == {"MEASUREMENT", "CHARACTERISTIC", "AXIS_PTS", "AXIS_DESCR", "AXIS_DESCR_2", "AXIS_DESCR_3", "TYPEDEF_MEASUREMENT"}
+Kinds == {"MEASUREMENT", "CHARACTERISTIC", "AXIS_PTS", "AXIS_DESCR", "AXIS_DESCR_2", "AXIS_DESCR_3", "AXIS_DESCR_4", "AXIS_DESCR_5", "TYPEDEF_MEASUREMENT"}
 DataTypes == {"UBYTE", "SBYTE", "UWORD", "SWORD", "ULONG", "SLONG", "A_UINT64", "A_INT64",
               "FLOAT16_IEEE", "FLOAT32_IEEE", "FLOAT64_IEEE"}
 \* conversion cases: NONE = NO_COMPU_METHOD; LINEAR by sign of a; RATLIN = RAT_FUNC with a=d=e=0, f#0
